@@ -160,6 +160,12 @@ def register(db):
     for k in ("tuple", "list", "set", "frozenset", "dict", "Generator"):
         db.opaque_isinst[("EnumValue", k)] = False
     db.opaque_isinst[("EnumValue", "Enum")] = True
+    # an enum member may at the same time be a str / int / float (IntEnum, StrEnum, class X(str, Enum)): whether it is
+    # one is a function of the member; a leaf value may be of any scalar type; a model instance is none of them
+    for k in ("str", "bytes", "bool", "int", "float", "Decimal", "QName"):
+        db.opaque_isinst[("EnumValue", k)] = "uf"
+        db.opaque_isinst[("Leaf", k)] = "uf"
+        db.opaque_isinst[("ModelObj", k)] = False
     collab.field(db, "EnumValue", "name", "str")
     collab.field(db, "EnumValue", "__class__", "u:type")
     db.add(Contract(
